@@ -28,6 +28,23 @@ CHECKS["C14"] = ("exploration",
   "Every sequence of up to n statement templates (assignment / op-assignment through nested accessors with constant and input-dependent indices, aggregate copies followed by mutation of either side, shadowing, calls mutating their by-value parameter, loops, branches, arms, for-join) is compiled and evaluated; the program returns the tuple of all variables, so any aliasing, wrongly merged branch or lost update changes the output.",
   PROGFAM_NOTE, "DESIGN.md §4 C14")
 
+CHECKS["C04"] = ("model_checking",
+  "explicit-state breadth-first search over gate-request sequences on clones of the real CircuitBuilder (hook H1), exact-structure state hashing, truth-table invariant on every transition and build+eval on every state; plus dedup on/off differential over enumerated programs",
+  "The transition system is the implementation itself: every transition calls the real push_xor/and/not/or/eq/mux/adder on a clone of the real builder; every reachable state up to the depth bound (all ordered operand pairs over constants, inputs and handed-back wires) is visited once; on every transition the returned wire must have the truth table of the literal request, on every state build() must validate and evaluate to the literal truth tables for several output lists. The consequence clause is decided by comparing dedup on/off circuits of every enumerated program on every input.",
+  "Depth bounds (2-3 inputs, 3-5 requests); truth tables computed by the harness from the builder snapshot.", "DESIGN.md §4 C04")
+CHECKS["C10"] = ("model_checking",
+  "exhaustive enumeration of all valid SSA circuit values up to a gate bound x all output lists x all inputs through the real SSA->register conversion, with structural translation validation and evaluation of both forms",
+  "Every SSA circuit with the stated party shapes and up to N gates (every operand choice below the wire index, every output list of length 1-2, so repeated operands, outputs that are inputs or repeated, unused inputs/gates and every fan-out pattern occur) is converted by the real Circuit::from; the result must validate, load inputs in order, hold in each operand register exactly the wire the SSA gate names (definedness + liveness), respect the register-count bounds, report the same AND count and evaluate identically on all 2^m inputs. Compiler-shaped circuits come from the program families.",
+  "Gate-count bound (3-5) and party shapes up to 4 input bits.", "DESIGN.md §4 C10")
+CHECKS["C15"] = ("exploration",
+  "structural scan (reachability from outputs, AND-operand predicates) of every circuit compiled from the enumerated program families and built from every reachable builder state; zero-AND requirement on an exhaustively enumerated data-movement family",
+  "Purely structural predicates on the public Circuit value are evaluated on every circuit produced by the bounded enumerations (families D, E, S, P in all configurations; builder state space of C04 at smaller depth): every gate except the two constant gates reaches an output, no AND has equal or constant-wire operands, with dedup no two ANDs share an operand pair; every program of family D (all sequences of <=n data-movement templates) must have and_gates()==0.",
+  "Only the two constant wires count as constant operands (syntactic reading).", "DESIGN.md §4 C15")
+CHECKS["C16"] = ("model_checking",
+  "exhaustive enumeration of arbitrary SSA and register circuit values (incl. forward/self/out-of-range references, zero-sized parties, arbitrary input instructions) up to a size bound; validate() verdict vs. eval() under catch_unwind and a definedness-tracking reading",
+  "Every circuit value of the bounded space is passed to the real validate(); whenever it accepts, the real eval() is run on every input of the declared shape and must not panic and must return one bit per output, and the harness's own definedness-tracking reading must find no read of a non-existent or undefined wire/register/input. The second clause (compiler and conversion output validates) is checked on every compiled program of the families and every converted circuit of C10.",
+  "Bounds: SSA <= 2-3 gates, register <= 2-3 instructions over small register/party alphabets.", "DESIGN.md §4 C16")
+
 NOT_YET = {
 }
 
